@@ -1175,11 +1175,11 @@ def ifexp_names(fn):
                       isinstance(st.targets[0], ast.Name) and isinstance(st.value, ast.IfExp)))
 
 
-def align_ifexp(fn, ref_names):
+def align_ifexp(fn, ref_names, skip=()):
     """N46 (towards the reference spelling): a local the reference binds under if/else and this tree binds with a conditional
     expression is split into the if/else; one the reference binds with a conditional expression and this tree under a two-armed
     if (one plain assignment to it in each arm, nothing else) is merged.  Returns the number of statements changed."""
-    cur = set(ifexp_names(fn))
+    cur = set(ifexp_names(fn)) - set(skip or ())
     ref = set(ref_names)
     n = [0]
 
